@@ -20,8 +20,11 @@ Data   == JsonDeserialize(IOEnv.TRACE_FILE)
 Traces == Data.traces
 TrLeaves == {0}
 VARIABLES tid, l, dead, st, ref, nops
-\* nops < 0 marks an evaluation that contained a rounding step: rounding acts on the class's own field,
-\* so the cross-notation clause does not apply to it (the property derives it from the other operators)
+\* nops < 0 marks an evaluation to which the cross-notation clause does not apply:
+\*  - it contained a rounding step: rounding acts on the class's own field (the property derives the clause from the other operators);
+\*  - it took a modulo of an operand within the accumulated tolerance of a multiple of k: modulo is discontinuous there, operands
+\*    that agree within 1e-8" across notations legitimately come out near 0 in one notation and near k in another (each single
+\*    operation still has to agree with the decimal-degree operation: clause `value`)
 tvars == <<vars, tid, l, dead, st, ref, nops>>
 T == Traces[tid]
 
@@ -41,6 +44,9 @@ Expected(ev) ==
     [] ev.op = "ModK"    -> <<1, TopS(1).cls, ModK(TopS(1).dec, ev.k), Tol>>
     [] ev.op = "Round"   -> <<1, TopS(1).cls, TopS(1).dec, Add(HalfUnit(TopS(1).cls, ev.k), Tol)>>
 
+\* twice the tolerance accumulated so far on either side of a multiple of k
+NearWrap(ev) == ev.op = "ModK" /\ LET m == ModK(TopS(1).dec, ev.k) w == MulSmall(Tol, 4 * (nops + 1))
+                                  IN Leq(m, w) \/ Geq(m, Sub(FromInt(ev.k), w))
 Arity(ev) == IF ev.op \in BinOps \cup CmpOps THEN 2 ELSE IF ev.op \in {"Push", "Final"} THEN 0 ELSE 1
 
 Step ==
@@ -77,7 +83,7 @@ Step ==
               /\ (IF f = "" THEN TRUE ELSE Report(ev.op \o "." \o f))
               /\ dead' = (f # "")
               /\ st' = IF f = "" THEN Append(PopS(x[1]), Item(ev.res)) ELSE st
-              /\ nops' = (IF ev.op = "Round" \/ nops < 0 THEN -1 ELSE nops + 1) /\ UNCHANGED ref
+              /\ nops' = (IF ev.op = "Round" \/ nops < 0 \/ NearWrap(ev) THEN -1 ELSE nops + 1) /\ UNCHANGED ref
   /\ l' = l + 1 /\ UNCHANGED <<vars, tid>>
 
 TraceSpec == TraceInit /\ [][Step]_tvars
